@@ -39,10 +39,11 @@ CLAIMED = {
            "array validations), `bindRef` is written from the Swagger 2.0 parameter rules; for ALL parameter specs and ALL raw values: scalar_agrees (string/integer), array_agrees under "
            "`cleanItems`, bind_sound_one/many (whatever the handler receives satisfies every declared validation), required_enforced, optional_absent_keeps_default; the hypotheses are shown "
            "necessary by array_differs_on_blank_items and bool_garbage_accepted (known findings). multi_agrees / multi_sound cover collectionFormat multi (no splitting: agreement on EVERY request). Tie: generated servers with three operations (query, urlencoded formData, header) of 5 random parameters each are compiled and ~25 raw values per parameter "
-           "are sent; handler-reached and the bound value must equal bindGen exactly and bindRef outside the two known findings."),
+           "are sent (incl. values with white space at either end); handler-reached and the bound value must equal bindGen exactly and bindRef outside the two known findings; where the "
+           "binder answers `absent` for a parameter with a default, the handler must hold exactly the spec's default (defaults incl. strings made of JSON / Go punctuation)."),
   "note": ("Trusted: Lean kernel + audited axioms; genlab server lab; encoding/json projection of the parameter struct. Modelled rather than verified: net/http query parsing, the runtime router, "
            "swag.SplitByFormat/ConvertInt/ConvertBool (dependencies, transcribed). Outside the fragment (not claimed by the theorems, not yet sent): path, multipart and body parameters, "
-           "number and strfmt formats, patterns, defaults and nested arrays."),
+           "number and strfmt formats, patterns and nested arrays."),
  },
  "C04": {
   "technique": "Lean 4 proof (round trip client encoding -> server binding for all representable values of the parameter fragment; response dispatch decision logic) + generated client calling generated server over loopback HTTP",
@@ -62,7 +63,9 @@ CLAIMED = {
   "text": ("Proof, partial: `tolerated` is the decidable relation the property allows between a valid document and its decode/encode image; for ALL schemas and documents: "
            "required_kept, nothing_added, scalars_unchanged, and the documented differences are tolerated while a changed value, a lost required property or an invented member are not "
            "(examples, by kernel evaluation). Tie: compiled generated models are run on valid instances; json.Marshal(json.Unmarshal(doc)) must be tolerated and a second pass must "
-           "reproduce the first output exactly (idempotence is checked on the real code). A model of the generated serializers is not built."),
+           "reproduce the first output exactly (idempotence is checked on the real code); a document that is valid by construction must decode. Named string-format definitions "
+           "(duration, date, date-time, uuid, byte; direct, $ref, items, map values) are part of the C05 stream with canonical values only (the Lean relation does not read formats). "
+           "A model of the generated serializers is not built."),
   "note": ("Trusted: Lean kernel + audited axioms; genlab models lab; encoding/json. Modelled rather than verified: the generated (un)marshallers (exercised, not modelled). "
            "Fragment as C02; polymorphic base types and tuples are not generated."),
  },
@@ -86,7 +89,8 @@ CLAIMED = {
            "A sort removed, a new unsorted range, or an edited hand-classified loop makes the obligation fail; the search is the differential: every command (generate model/server/client/cli/markdown, flatten, "
            "expand, mixin, diff text/json, generate spec on two scanner fixtures) is run N times in fresh processes on a spec with 9-12 entries in every map and the outputs are compared byte for byte. "
            "Four order-sensitive loops found this way were repaired (fix: commits); the order-dependent visited-key bookkeeping of the diff analyser is a known finding. "
-           "Schedules are not covered by a theorem (runtime behaviour): six concurrent generations in one process under the race detector are compared with the sequential run."),
+           "Schedules are not covered by a theorem (runtime behaviour): six concurrent generations in one process under the race detector are compared with the sequential run, and "
+           "in-process histories (generations with and without a custom template directory one after the other) are compared with each generation alone in a fresh process."),
   "note": ("Trusted: Lean kernel + audited axioms; the census translator (go/packages + go/types, classification rules in harness/internal/census - a wrong rule is caught only by the differential); "
            "the CLI built from the working tree; sha256 tree comparison. Modelled rather than verified: loop bodies are classified, not translated; purity of functions called inside a loop is assumed "
            "by the rules and validated by the differential. Concurrency (schedules): exercised with -race, not modelled; option parsing of the generate commands is serialised in that run."),
@@ -108,7 +112,9 @@ CLAIMED = {
            "`all_sites_safe` is decided by the kernel over the site table REGENERATED on every run by marker rendering: 157 places where one of 43 free-text positions lands "
            "in generated server and client files, each with the lexical context seen by go/scanner and the transformation observed on probe characters; every site must "
            "carry the escaper its context needs (the exception list is empty after nine fix: commits). Tie: the real helpers are compared with the Lean functions on hostile and "
-           "random strings; each field then receives a payload closing its context and generation must fail or yield the same declaration skeleton."),
+           "random strings; each field then receives a payload closing its context and generation must fail or yield the same declaration skeleton. "
+           "struct_tag_one_token: the struct tag GenSchema.PrintTags writes (Go code, free text with --struct-tags description|example) is exactly one Go string literal for EVERY "
+           "tag list (model of strconv.Quote / CanBackquote, tied by correspondence with PrintTags and go/scanner); last_value_rule_is_unsafe; option sets x fields x payloads on generate model."),
   "note": ("Trusted: Lean kernel + audited axioms; vx extract (Sites.lean by marker rendering through the real generate command plumbing, go/scanner); go/parser; genlab. "
            "Modelled rather than verified: text/template execution and goimports (reached by running them); sites no marker reaches; junction characters between template literals "
            "and escaped values; targets other than server and client (cli, markdown) are not in the table yet."),
